@@ -311,7 +311,7 @@ class RenderNode(Node):
                 )
 
         partial_name = self.name.value if isinstance(self.name, StringLiteral) else ""
-        partial_key = hash((partial_name, *[arg.name for arg in self.args]))
+        partial_key = hash((partial_name, *[str(ident) for ident in scope]))
 
         # Static analysis will use the parent template name if Partial.name is
         # empty. Which is what we want for inline snippets.
